@@ -239,6 +239,21 @@ impl History {
                 h.trail.clear();
                 h
             }
+            // G: room A followed by two concurrent power-levels events on the tip (PX = kick level, then PC = invite
+            // level, which wins a merge by its later timestamp) and a ban of U made under PX. All three stay
+            // candidates for prev_events (base_len is left at room A's), so that exploration can build on the
+            // losing fork: a later event citing the ban brings PX back through the auth difference while PC is
+            // unconflicted, and the conflicted set can consist of power events only.
+            'G' => {
+                let mut h = History::base(v, true);
+                let tip = h.nodes.len() - 1;
+                for (t, p) in [(15usize, tip), (14, tip), (3, tip + 1)] {
+                    h = h.apply(Action { template: t, prev: (p, None), ts_class: 2 }).expect("room G construction must be authorised");
+                }
+                h.base_kind = 'G';
+                h.trail.clear();
+                h
+            }
             _ => {
                 let mut h = History::base(v, true);
                 let tip = h.nodes.len() - 1;
